@@ -1,4 +1,3 @@
-from math import ceil
 from typing import Optional
 from typing import Tuple
 from typing import cast
@@ -13,6 +12,7 @@ from pfhedge._utils.typing import TensorOrScalar
 from pfhedge.stochastic import generate_geometric_brownian
 
 from .base import BasePrimary
+from .base import n_time_steps
 
 
 class BrownianStock(BasePrimary):
@@ -137,7 +137,7 @@ class BrownianStock(BasePrimary):
 
         spot = generate_geometric_brownian(
             n_paths=n_paths,
-            n_steps=ceil(time_horizon / self.dt + 1),
+            n_steps=n_time_steps(time_horizon, self.dt),
             init_state=init_state,
             sigma=self.sigma,
             mu=self.mu,
